@@ -33,13 +33,17 @@ HP = {
     "GLIF2": [dict(rest_v=0.0, reset_v_add=0.5, reset_v_mul=0.25, thresh_eq_v=2.0, tc_membrane=2.0, rc_adaptation=0.25, spike_increment=0.5, resistance=1.0),
               dict(rest_v=-65.0, reset_v_add=2.0, reset_v_mul=0.5, thresh_eq_v=-50.0, tc_membrane=20.0, rc_adaptation=(0.25, 0.125), spike_increment=(0.5, 0.25), resistance=0.5)],
     "QIF": [dict(rest_v=0.0, crit_v=1.0, affinity=1.0, reset_v=-0.5, thresh_v=2.0, time_constant=2.0, resistance=1.0),
-            dict(rest_v=-60.0, crit_v=-50.0, affinity=0.25, reset_v=-65.0, thresh_v=-30.0, time_constant=8.0, resistance=0.5)],
+            dict(rest_v=-60.0, crit_v=-50.0, affinity=0.25, reset_v=-65.0, thresh_v=-30.0, time_constant=8.0, resistance=0.5),
+            dict(rest_v=0.0, crit_v=1.0, affinity=2.0, reset_v=1.25, thresh_v=2.0, time_constant=2.0, resistance=1.0)],
     "Izhikevich": [dict(rest_v=0.0, crit_v=1.0, affinity=1.0, reset_v=-0.5, thresh_v=2.0, tc_membrane=2.0, tc_adaptation=4.0, voltage_coupling=0.5, spike_increment=0.25, resistance=1.0),
-                   dict(rest_v=-60.0, crit_v=-50.0, affinity=0.25, reset_v=-65.0, thresh_v=-30.0, tc_membrane=8.0, tc_adaptation=(4.0, 16.0), voltage_coupling=(0.5, -0.25), spike_increment=(0.25, 1.0), resistance=0.5)],
+                   dict(rest_v=-60.0, crit_v=-50.0, affinity=0.25, reset_v=-65.0, thresh_v=-30.0, tc_membrane=8.0, tc_adaptation=(4.0, 16.0), voltage_coupling=(0.5, -0.25), spike_increment=(0.25, 1.0), resistance=0.5),
+                   dict(rest_v=0.0, crit_v=1.0, affinity=2.0, reset_v=1.25, thresh_v=2.0, tc_membrane=2.0, tc_adaptation=4.0, voltage_coupling=0.0, spike_increment=0.0, resistance=1.0)],
     "EIF": [dict(rest_v=0.0, rheobase_v=1.0, sharpness=0.5, reset_v=-0.5, thresh_v=2.0, time_constant=2.0, resistance=1.0),
-            dict(rest_v=-65.0, rheobase_v=-52.0, sharpness=2.0, reset_v=-70.0, thresh_v=-40.0, time_constant=16.0, resistance=0.5)],
+            dict(rest_v=-65.0, rheobase_v=-52.0, sharpness=2.0, reset_v=-70.0, thresh_v=-40.0, time_constant=16.0, resistance=0.5),
+            dict(rest_v=0.0, rheobase_v=1.0, sharpness=0.5, reset_v=1.8, thresh_v=2.0, time_constant=2.0, resistance=1.0)],
     "AdEx": [dict(rest_v=0.0, rheobase_v=1.0, sharpness=0.5, reset_v=-0.5, thresh_v=2.0, tc_membrane=2.0, tc_adaptation=4.0, voltage_coupling=0.5, spike_increment=0.25, resistance=1.0),
-             dict(rest_v=-65.0, rheobase_v=-52.0, sharpness=2.0, reset_v=-70.0, thresh_v=-40.0, tc_membrane=16.0, tc_adaptation=(4.0, 16.0), voltage_coupling=(0.5, -0.25), spike_increment=(0.25, 1.0), resistance=0.5)],
+             dict(rest_v=-65.0, rheobase_v=-52.0, sharpness=2.0, reset_v=-70.0, thresh_v=-40.0, tc_membrane=16.0, tc_adaptation=(4.0, 16.0), voltage_coupling=(0.5, -0.25), spike_increment=(0.25, 1.0), resistance=0.5),
+             dict(rest_v=0.0, rheobase_v=1.0, sharpness=0.5, reset_v=1.8, thresh_v=2.0, tc_membrane=2.0, tc_adaptation=4.0, voltage_coupling=0.0, spike_increment=0.0, resistance=1.0)],
 }
 CLS = {"LIF": LIF, "ALIF": ALIF, "GLIF1": GLIF1, "GLIF2": GLIF2, "QIF": QIF, "Izhikevich": Izhikevich, "EIF": EIF, "AdEx": AdEx}
 ADAPT_THRESH = ("ALIF", "GLIF2")
@@ -352,7 +356,7 @@ def run(rep):
     T = 4 if quick else 6
     jobs = [(comparator_shard, ())]
     for cname in CLS:
-        for hpi in (0, 1):
+        for hpi in range(len(HP[cname])):
             for dt in (1.0, 0.5):
                 for k in (0.0, 0.5, 1.0, 1.5, 2.0, 3.0):
                     for lock in (True, False):
@@ -360,6 +364,9 @@ def run(rep):
                             if cname not in ADAPT_THRESH + ADAPT_CURR and not adapt:
                                 continue
                             if quick and hpi == 1 and (k in (0.5, 3.0) or not lock):
+                                continue
+                            # third set (self-exciting reset, legal but unusual): the refractory mask is what keeps the neuron silent
+                            if hpi == 2 and (k not in (2.0, 3.0) or (quick and dt != 1.0)):
                                 continue
                             jobs.append((trie_shard, (cname, hpi, dt, k * dt, lock, adapt, T)))
     tally = run_shards(jobs, seed=rep.seed)
